@@ -85,23 +85,23 @@ def layout(rng, decos, nslots):
     return [''.join(s) for s in slots]
 
 
-def gen_note(rng, decos=None, table=NOTE_DECO):
-    """returns (text, ast) ; ast = dict(dur, pitch, acc, decos)"""
+NOTE_DECO_PLAIN = ''.join(c for c in NOTE_DECO if c not in DISPLAY)
+
+
+def gen_note(rng, decos=None, table=NOTE_DECO, allow_display_decos=True, acc=None):
+    """returns (text, ast) ; ast = dict(dur, pitch, acc, decos).  The signifiers that the grammar also reads as
+    an accidental-display suffix (i j X Z) are generated only on notes without accidental (the property's own
+    restriction)."""
     dur = gen_duration(rng)
     pitch = gen_pitch(rng)
-    acc = gen_accidental(rng)
+    if acc is None:
+        acc = gen_accidental(rng)
     if decos is None:
-        decos = gen_decos(rng, table)
+        decos = gen_decos(rng, table if (not acc and allow_display_decos) else NOTE_DECO_PLAIN)
     s = layout(rng, decos, 4)
-    if acc and s[3] and s[3][0] in DISPLAY and len(acc.rstrip('xXiIjZyY')) == len(acc):
-        # a signifier right after a bare accidental would be read as its display suffix: move it in front
-        s[2] += s[3]
-        s[3] = ''
     if not acc:
         s[2] += s[3]
         s[3] = ''
-    if acc in ('y', 'Y') or acc.endswith('y') and not acc.endswith('yy') and s[3][:1] == 'y':
-        pass
     text = s[0] + dur + s[1] + pitch + s[2] + acc + s[3]
     return text, {'kind': 'note', 'dur': dur, 'pitch': pitch, 'acc': acc, 'decos': sorted(set(decos))}
 
@@ -114,17 +114,17 @@ def gen_rest(rng):
     return s[0] + dur + r + s[1], {'kind': 'rest', 'dur': dur, 'decos': sorted(set(decos))}
 
 
-def gen_chord(rng):
+def gen_chord(rng, rest_in_chord=0.03):
+    """notes share the union of their signifiers, so the display-suffix signifiers are generated only in chords
+    none of whose notes has an accidental; a rest inside a chord is rare (finding K11)"""
     n = rng.choice([2, 2, 3, 3, 4])
+    with_acc = rng.random() < 0.6
     parts, asts = [], []
     for i in range(n):
-        if rng.random() < 0.1:
+        if rng.random() < rest_in_chord:
             t, a = gen_rest(rng)
         else:
-            t, a = gen_note(rng)
-        if i > 0 and rng.random() < 0.2 and a['kind'] == 'note':
-            # drop the duration of a later note (it inherits the previous one)
-            t2, a2 = gen_note(rng)
+            t, a = gen_note(rng, allow_display_decos=not with_acc, acc=None if with_acc else '')
         parts.append(t)
         asts.append(a)
     return ' '.join(parts), {'kind': 'chord', 'notes': asts}
